@@ -9,6 +9,11 @@
 //! b = 1, b = 4096, one-frame callbacks and sizes that are not a multiple of b, on 1..8 channels:
 //! renderings compared with each other bit-for-bit; on a difference the first differing frame is
 //! reported and the scene is bisected (effects removed / kept one at a time) to name the element.
+//! (3) Steady scenes whose constancy is NOT spelled `Value::Fixed` and whose past is not empty: send levels
+//! mapped from a tweener modulator that is never tweened or from the distance of a spatial track to a
+//! listener that never moves; recursive effects (delay / reverb) on the send tracks; and a history in which
+//! the device changed its sample rate BEFORE the compared stretch (scene built at another rate, 0..n
+//! callbacks, `Renderer::on_change_sample_rate`, then nothing any more).  Same monitor: all renderings equal.
 use crate::backend::*;
 use crate::c02::{gen_cbs, hash_key, pick_b, scaled, Scene};
 use crate::util::*;
@@ -22,8 +27,11 @@ use kira::effect::reverb::ReverbBuilder;
 use kira::effect::volume_control::VolumeControlBuilder;
 use kira::effect::{Effect, EffectBuilder};
 use kira::sound::static_sound::{StaticSoundData, StaticSoundSettings};
-use kira::track::{MainTrackBuilder, SendTrackBuilder, SendTrackId, TrackBuilder, TrackHandle};
-use kira::{Capacities, Frame, Panning, Value};
+use kira::listener::ListenerId;
+use kira::modulator::tweener::TweenerBuilder;
+use kira::modulator::ModulatorId;
+use kira::track::{MainTrackBuilder, SendTrackBuilder, SendTrackId, SpatialTrackBuilder, SpatialTrackHandle, TrackBuilder, TrackHandle};
+use kira::{Capacities, Decibels, Easing, Frame, Mapping, Panning, Value};
 use std::any::Any;
 use std::sync::Arc;
 use std::time::Duration;
@@ -119,13 +127,31 @@ impl std::fmt::Debug for Snd {
 		write!(f, "Snd{{{} frames @{} Hz, rate {}, loop {:?}, pan {}, vol {} dB, reverse {}}}", self.frames.len(), self.sr, self.rate, self.looped, self.pan, self.vol, self.reverse)
 	}
 }
+/// a send level that never changes
+#[derive(Clone, Debug)]
+enum Lvl {
+	Fixed(f32),
+	/// mapped (linearly, input 0..1) from tweener modulator `m` of the scene, which is never tweened
+	Tweener { m: usize, lo: f32, hi: f32 },
+	/// mapped (linearly, input 1..100) from the distance of the enclosing spatial track to the listener; neither moves
+	Distance { lo: f32, hi: f32 },
+}
 #[derive(Clone, Debug)]
 struct Trk {
 	vol: f32,
 	fx: Vec<Fx>,
 	snds: Vec<Snd>,
 	subs: Vec<Trk>,
-	routes: Vec<(usize, f32)>,
+	routes: Vec<(usize, Lvl)>,
+	/// a spatial track at this fixed position (needs `SceneD::listener`)
+	spatial: Option<[f32; 3]>,
+}
+/// what happened BEFORE the compared stretch: the manager was created (and the scene built) at `sr0`, the prelude
+/// callbacks ran, then the device reported `SR`; sounds are played before the prelude or after the change
+#[derive(Clone, Debug)]
+struct Hist {
+	sr0: u32,
+	late_play: bool,
 }
 #[derive(Clone, Debug)]
 struct SceneD {
@@ -134,6 +160,11 @@ struct SceneD {
 	main_snds: Vec<Snd>,
 	tracks: Vec<Trk>,
 	sends: Vec<(f32, Vec<Fx>)>,
+	/// initial values of the scene's tweener modulators (never tweened)
+	mods: Vec<f64>,
+	/// position of the scene's listener (never moved)
+	listener: Option<[f32; 3]>,
+	hist: Option<Hist>,
 }
 
 fn snd_data(s: &Snd) -> StaticSoundData {
@@ -144,54 +175,135 @@ fn snd_data(s: &Snd) -> StaticSoundData {
 	}
 	d
 }
-fn build_track(t: &Trk, sends: &[SendTrackId], parent: Result<&mut TrackHandle, &mut Mgr>, keep: &mut Vec<Box<dyn Any>>) {
-	let mut b = TrackBuilder::new().volume(t.vol);
-	for f in &t.fx {
-		b.add_built_effect(f.build());
+struct Ctx {
+	sends: Vec<SendTrackId>,
+	mods: Vec<ModulatorId>,
+	listener: Option<ListenerId>,
+}
+fn lvl_value(l: &Lvl, cx: &Ctx) -> Value<Decibels> {
+	match l {
+		Lvl::Fixed(db) => Value::Fixed(Decibels(*db)),
+		Lvl::Tweener { m, lo, hi } => Value::FromModulator { id: cx.mods[*m], mapping: Mapping { input_range: (0.0, 1.0), output_range: (Decibels(*lo), Decibels(*hi)), easing: Easing::Linear } },
+		Lvl::Distance { lo, hi } => Value::FromListenerDistance(Mapping { input_range: (1.0, 100.0), output_range: (Decibels(*lo), Decibels(*hi)), easing: Easing::Linear }),
 	}
-	for (i, db) in &t.routes {
-		b = b.with_send(sends[*i], *db);
-	}
-	let mut h = match parent {
-		Ok(p) => p.add_sub_track(b).unwrap(),
-		Err(m) => m.add_sub_track(b).unwrap(),
+}
+enum H {
+	P(TrackHandle),
+	S(SpatialTrackHandle),
+}
+fn v3(p: [f32; 3]) -> mint::Vector3<f32> {
+	mint::Vector3 { x: p[0], y: p[1], z: p[2] }
+}
+/// builds the track and its sub-tracks; the handles and the sounds to play on them go to `built`
+fn build_track(t: &Trk, cx: &Ctx, parent: Result<&mut H, &mut Mgr>, built: &mut Vec<(H, Vec<Snd>)>) {
+	let mut h = match (t.spatial, cx.listener) {
+		(Some(pos), Some(lis)) => {
+			let mut b = SpatialTrackBuilder::new().volume(t.vol);
+			for f in &t.fx {
+				b.add_built_effect(f.build());
+			}
+			for (i, l) in &t.routes {
+				b = b.with_send(cx.sends[*i], lvl_value(l, cx));
+			}
+			H::S(match parent {
+				Ok(H::P(p)) => p.add_spatial_sub_track(lis, v3(pos), b).unwrap(),
+				Ok(H::S(p)) => p.add_spatial_sub_track(lis, v3(pos), b).unwrap(),
+				Err(m) => m.add_spatial_sub_track(lis, v3(pos), b).unwrap(),
+			})
+		}
+		_ => {
+			let mut b = TrackBuilder::new().volume(t.vol);
+			for f in &t.fx {
+				b.add_built_effect(f.build());
+			}
+			for (i, l) in &t.routes {
+				b = b.with_send(cx.sends[*i], lvl_value(l, cx));
+			}
+			H::P(match parent {
+				Ok(H::P(p)) => p.add_sub_track(b).unwrap(),
+				Ok(H::S(p)) => p.add_sub_track(b).unwrap(),
+				Err(m) => m.add_sub_track(b).unwrap(),
+			})
+		}
 	};
-	for s in &t.snds {
-		keep.push(Box::new(h.play(snd_data(s)).unwrap()));
-	}
 	for c in &t.subs {
-		build_track(c, sends, Ok(&mut h), keep);
+		build_track(c, cx, Ok(&mut h), built);
 	}
-	keep.push(Box::new(h));
+	built.push((h, t.snds.clone()));
 }
 fn render(d: &SceneD, b: usize, cuts: &[usize], ch: u16) -> Vec<f32> {
+	render_h(d, b, &[], cuts, ch)
+}
+/// `pre`: the callbacks before the sample-rate change of `d.hist` (must be empty without a history); their output
+/// is part of the rendering
+fn render_h(d: &SceneD, b: usize, pre: &[usize], cuts: &[usize], ch: u16) -> Vec<f32> {
 	let mut main = MainTrackBuilder::new().volume(d.main_vol);
 	for f in &d.main_fx {
 		main.add_built_effect(f.build());
 	}
-	let mut mgr = manager(SR, b, Capacities::default(), main);
+	let mut mgr = manager(d.hist.as_ref().map_or(SR, |h| h.sr0), b, Capacities::default(), main);
 	let mut keep: Vec<Box<dyn Any>> = vec![];
-	let mut ids = vec![];
+	let mut cx = Ctx { sends: vec![], mods: vec![], listener: None };
 	for (vol, fx) in &d.sends {
 		let mut sb = SendTrackBuilder::new().volume(*vol);
 		for f in fx {
 			sb.add_built_effect(f.build());
 		}
 		let h = mgr.add_send_track(sb).unwrap();
-		ids.push(h.id());
+		cx.sends.push(h.id());
 		keep.push(Box::new(h));
 	}
-	for s in &d.main_snds {
-		keep.push(Box::new(mgr.play(snd_data(s)).unwrap()));
+	for init in &d.mods {
+		let h = mgr.add_modulator(TweenerBuilder { initial_value: *init }).unwrap();
+		cx.mods.push(h.id());
+		keep.push(Box::new(h));
 	}
+	if let Some(p) = d.listener {
+		let h = mgr.add_listener(v3(p), mint::Quaternion { v: mint::Vector3 { x: 0.0f32, y: 0.0, z: 0.0 }, s: 1.0 }).unwrap();
+		cx.listener = Some(h.id());
+		keep.push(Box::new(h));
+	}
+	let mut built: Vec<(H, Vec<Snd>)> = vec![];
 	for t in &d.tracks {
-		build_track(t, &ids, Err(&mut mgr), &mut keep);
+		build_track(t, &cx, Err(&mut mgr), &mut built);
 	}
+	let play = |mgr: &mut Mgr, built: &mut Vec<(H, Vec<Snd>)>, keep: &mut Vec<Box<dyn Any>>| {
+		for s in &d.main_snds {
+			keep.push(Box::new(mgr.play(snd_data(s)).unwrap()));
+		}
+		for (h, snds) in built.iter_mut() {
+			for s in snds.iter() {
+				keep.push(match h {
+					H::P(h) => Box::new(h.play(snd_data(s)).unwrap()),
+					H::S(h) => Box::new(h.play(snd_data(s)).unwrap()),
+				});
+			}
+		}
+	};
 	let mut out = vec![];
+	match &d.hist {
+		None => {
+			assert!(pre.is_empty());
+			play(&mut mgr, &mut built, &mut keep);
+		}
+		Some(h) => {
+			if !h.late_play {
+				play(&mut mgr, &mut built, &mut keep);
+			}
+			for n in pre {
+				out.extend(mgr.backend_mut().callback(*n, ch));
+			}
+			mgr.backend_mut().set_sample_rate(SR);
+			if h.late_play {
+				play(&mut mgr, &mut built, &mut keep);
+			}
+		}
+	}
 	for n in cuts {
 		out.extend(mgr.backend_mut().callback(*n, ch));
 	}
 	drop(keep);
+	drop(built);
 	out
 }
 
@@ -235,7 +347,7 @@ fn gen_trk(r: &mut Rng, depth: u32, nsends: usize) -> Trk {
 	let mut routes = vec![];
 	for i in 0..nsends {
 		if r.chance(1, 2) {
-			routes.push((i, *r.pick(&[0.0, -6.0, -12.0])));
+			routes.push((i, Lvl::Fixed(*r.pick(&[0.0, -6.0, -12.0]))));
 		}
 	}
 	Trk {
@@ -244,6 +356,7 @@ fn gen_trk(r: &mut Rng, depth: u32, nsends: usize) -> Trk {
 		snds: (0..r.below(3)).map(|_| gen_snd(r)).collect(),
 		subs: if depth < 3 { (0..r.below(if depth == 0 { 3 } else { 2 })).map(|_| gen_trk(r, depth + 1, nsends)).collect() } else { vec![] },
 		routes,
+		spatial: None,
 	}
 }
 fn gen_scene(r: &mut Rng) -> SceneD {
@@ -254,6 +367,116 @@ fn gen_scene(r: &mut Rng) -> SceneD {
 		main_snds: (0..r.below(2)).map(|_| gen_snd(r)).collect(),
 		tracks: (0..r.range(1, 3)).map(|_| gen_trk(r, 0, nsends)).collect(),
 		sends: (0..nsends).map(|_| (*r.pick(&[0.0, -4.0]), (0..r.below(2)).map(|_| gen_fx(r, 0)).collect())).collect(),
+		mods: vec![],
+		listener: None,
+		hist: None,
+	}
+}
+fn gen_rec_fx(r: &mut Rng) -> Fx {
+	if r.chance(2, 3) {
+		let frames = match r.below(4) {
+			0 => r.range(1, 5) as u64,
+			1 => r.range(6, 70) as u64,
+			_ => r.range(71, 400) as u64,
+		};
+		let inner = (0..r.below(2)).map(|_| gen_fx(r, 1)).collect();
+		Fx::Delay { frames, fb: *r.pick(&[-6.0, -12.0, -3.0]), mix: *r.pick(&[0.3, 0.5, 1.0]), inner }
+	} else {
+		Fx::Reverb { fb: *r.pick(&[0.5, 0.8, 0.9]), damp: *r.pick(&[0.1, 0.5]), width: *r.pick(&[0.0, 0.5, 1.0]), mix: *r.pick(&[0.3, 0.5, 1.0]) }
+	}
+}
+fn gen_lvl(r: &mut Rng, nmods: usize, in_space: bool) -> Lvl {
+	let (lo, hi) = *r.pick(&[(-30.0f32, -3.0f32), (-40.0, 0.0), (-12.0, 6.0), (0.0, -24.0)]);
+	match r.below(3) {
+		0 if nmods > 0 => Lvl::Tweener { m: r.below(nmods as u64) as usize, lo, hi },
+		1 if in_space => Lvl::Distance { lo, hi },
+		0 | 1 if nmods > 0 && r.chance(1, 2) => Lvl::Tweener { m: r.below(nmods as u64) as usize, lo, hi },
+		_ => Lvl::Fixed(*r.pick(&[0.0, -6.0, -12.0])),
+	}
+}
+fn gen_trk3(r: &mut Rng, depth: u32, nsends: usize, nmods: usize, listener: bool, in_space: bool) -> Trk {
+	let spatial = if listener && r.chance(1, 2) { Some([r.range(-30, 30) as f32, r.range(-5, 5) as f32, r.range(-60, -2) as f32]) } else { None };
+	let in_space = in_space || spatial.is_some();
+	let mut routes = vec![];
+	for i in 0..nsends {
+		if r.chance(3, 4) {
+			routes.push((i, gen_lvl(r, nmods, in_space)));
+		}
+	}
+	Trk {
+		vol: *r.pick(&[0.0, -2.0, -9.0]),
+		fx: (0..r.below(2)).map(|_| gen_fx(r, 0)).collect(),
+		snds: (0..if depth == 0 { r.range(1, 2) } else { r.range(0, 2) }).map(|_| gen_snd(r)).collect(),
+		subs: if depth < 2 { (0..r.below(2)).map(|_| gen_trk3(r, depth + 1, nsends, nmods, listener, in_space)).collect() } else { vec![] },
+		routes,
+		spatial,
+	}
+}
+/// scenes of part (3): constant-but-not-`Fixed` send levels, recursive effects on the sends, a sample-rate change in the past
+fn gen_scene3(r: &mut Rng) -> SceneD {
+	let nsends = r.range(1, 2) as usize;
+	let nmods = r.below(3) as usize;
+	// the listener stands at the origin: elsewhere `ListenerInfo::interpolated_position` (glam's a*(1-t) + b*t with a == b)
+	// rounds differently at different positions inside a chunk -- see `listener_lerp_probe`
+	let listener = if r.chance(1, 2) { Some([0.0, 0.0, 0.0]) } else { None };
+	SceneD {
+		main_vol: *r.pick(&[0.0, -1.0, -6.0]),
+		main_fx: (0..r.below(2)).map(|_| if r.chance(1, 2) { gen_rec_fx(r) } else { gen_fx(r, 0) }).collect(),
+		main_snds: (0..r.below(2)).map(|_| gen_snd(r)).collect(),
+		tracks: (0..r.range(1, 3)).map(|_| gen_trk3(r, 0, nsends, nmods, listener.is_some(), false)).collect(),
+		sends: (0..nsends).map(|_| (*r.pick(&[0.0, -4.0]), (0..r.range(0, 2)).map(|_| if r.chance(3, 4) { gen_rec_fx(r) } else { gen_fx(r, 0) }).collect())).collect(),
+		mods: (0..nmods).map(|_| *r.pick(&[0.0, 0.25, 0.5, 0.8125, 1.0])).collect(),
+		listener,
+		hist: if r.chance(3, 5) { Some(Hist { sr0: *r.pick(&[44100u32, 44100, 22050, 96000, 48000]), late_play: r.chance(1, 2) }) } else { None },
+	}
+}
+/// small hand-written scenes of part (3), rendered first (a failure on one of them is the readable witness)
+fn directed3(r: &mut Rng) -> Vec<SceneD> {
+	let mut noise = |n: usize| -> Snd {
+		let frames: Vec<Frame> = (0..n).map(|_| Frame::new((r.unit_f64() - 0.5) as f32 * 0.6, (r.unit_f64() - 0.5) as f32 * 0.6)).collect();
+		Snd { frames: Arc::from(frames), sr: SR, rate: 1.0, looped: None, pan: 0.0, vol: 0.0, reverse: false }
+	};
+	let trk = |snd: Snd, lvl: Lvl, spatial: Option<[f32; 3]>| Trk { vol: -2.0, fx: vec![], snds: vec![snd], subs: vec![], routes: vec![(0, lvl)], spatial };
+	let scene = |t: Trk, send_fx: Vec<Fx>, mods: Vec<f64>, listener: Option<[f32; 3]>, hist: Option<Hist>| SceneD { main_vol: 0.0, main_fx: vec![], main_snds: vec![], tracks: vec![t], sends: vec![(-1.5, send_fx)], mods, listener, hist };
+	let echo = Fx::Delay { frames: 240, fb: -3.0, mix: 1.0, inner: vec![] };
+	let verb = Fx::Reverb { fb: 0.9, damp: 0.1, width: 1.0, mix: 1.0 };
+	vec![
+		// send level mapped from a tweener that is never tweened / from the distance to a listener that never moves
+		scene(trk(noise(500), Lvl::Tweener { m: 0, lo: -40.0, hi: 0.0 }, None), vec![], vec![0.25], None, None),
+		scene(trk(noise(500), Lvl::Distance { lo: -30.0, hi: -3.0 }, Some([3.0, 0.0, -40.0])), vec![], vec![], Some([0.0; 3]), None),
+		// an echo / a reverb on a send track that has lived through a sample-rate change
+		scene(trk(noise(48), Lvl::Fixed(0.0), None), vec![echo.clone()], vec![], None, Some(Hist { sr0: 44100, late_play: true })),
+		scene(trk(noise(900), Lvl::Fixed(-6.0), None), vec![verb], vec![], None, Some(Hist { sr0: 22050, late_play: false })),
+		scene(trk(noise(48), Lvl::Tweener { m: 0, lo: -12.0, hi: 6.0 }, None), vec![echo], vec![0.5], None, Some(Hist { sr0: 96000, late_play: true })),
+	]
+}
+/// NOT a monitor (nothing is raised): records in the notes whether a listener that stands still away from the origin
+/// makes a spatial track's output depend on the internal buffer size (glam's `lerp(a, a, t)` = a*(1-t) + a*t rounds
+/// differently for different t = i / chunk length).  To be turned into `s.fail(.., Some(class))` once the class is listed.
+fn listener_lerp_probe(s: &mut Session, r: &mut Rng) {
+	let frames: Vec<Frame> = (0..400).map(|_| Frame::new((r.unit_f64() - 0.5) as f32 * 0.6, (r.unit_f64() - 0.5) as f32 * 0.6)).collect();
+	let snd = Snd { frames: Arc::from(frames), sr: SR, rate: 1.0, looped: None, pan: 0.0, vol: 0.0, reverse: false };
+	let d = SceneD {
+		main_vol: 0.0,
+		main_fx: vec![],
+		main_snds: vec![],
+		tracks: vec![Trk { vol: 0.0, fx: vec![], snds: vec![snd], subs: vec![], routes: vec![], spatial: Some([9.0, 1.0, -41.0]) }],
+		sends: vec![],
+		mods: vec![],
+		listener: Some([-3.0, 0.0, -1.0]),
+		hist: None,
+	};
+	let a = render(&d, 1, &[400], 2);
+	let b = render(&d, 4096, &[400], 2);
+	if let Some(p) = first_diff(&a, &b) {
+		let maxdiff = a.iter().zip(b.iter()).map(|(x, y)| (x - y).abs()).fold(0.0f32, f32::max);
+		s.count("listener_lerp_probe_differs");
+		s.notes.push(format!(
+			"finding candidate (not raised): listener fixed at (-3, 0, -1), identity orientation; spatial track fixed at (9, 1, -41) playing 400 frames of noise; one 400-frame callback with internal buffer size 1 vs 4096: first differing sample {p} (frame {}): {:?} vs {:?}, max abs difference {maxdiff:e}",
+			p / 2,
+			a[p],
+			b[p]
+		));
 	}
 }
 fn split(r: &mut Rng, mut total: usize, max: usize) -> Vec<usize> {
@@ -311,18 +534,62 @@ fn only_fx(d: &SceneD, keep: Option<usize>) -> (SceneD, Option<Fx>) {
 	};
 	fn t(x: &Trk, filt: &mut dyn FnMut(&Vec<Fx>) -> Vec<Fx>) -> Trk {
 		let fx = filt(&x.fx);
-		Trk { vol: x.vol, fx, snds: x.snds.clone(), subs: x.subs.iter().map(|c| t(c, filt)).collect(), routes: x.routes.clone() }
+		Trk { vol: x.vol, fx, snds: x.snds.clone(), subs: x.subs.iter().map(|c| t(c, filt)).collect(), routes: x.routes.clone(), spatial: x.spatial }
 	}
 	let main_fx = filt(&d.main_fx);
 	let tracks = d.tracks.iter().map(|x| t(x, &mut filt)).collect();
 	let sends = d.sends.iter().map(|(v, fx)| (*v, filt(fx))).collect();
-	(SceneD { main_vol: d.main_vol, main_fx, main_snds: d.main_snds.clone(), tracks, sends }, kept)
+	(SceneD { main_vol: d.main_vol, main_fx, main_snds: d.main_snds.clone(), tracks, sends, mods: d.mods.clone(), listener: d.listener, hist: d.hist.clone() }, kept)
 }
 fn first_diff(a: &[f32], b: &[f32]) -> Option<usize> {
 	if a.len() != b.len() {
 		return Some(a.len().min(b.len()));
 	}
 	(0..a.len()).find(|i| a[*i].to_bits() != b[*i].to_bits() && !(a[*i].is_nan() && b[*i].is_nan()))
+}
+
+type Cfg = (usize, Vec<usize>, Vec<usize>);
+/// THE MONITOR: all renderings of one steady scene are the same; on a difference the scene is bisected
+fn compare(s: &mut Session, d: &SceneD, cfgs: &[Cfg], ch: u16, total: usize, outs: &[Vec<f32>]) -> bool {
+	for j in 1..outs.len() {
+		let Some(p) = first_diff(&outs[0], &outs[j]) else { continue };
+		// bisect: which element keeps the difference alive?
+		let mut blame = String::from("not reproduced by any single element (interaction)");
+		let (bare, _) = only_fx(d, None);
+		let a = render_h(&bare, cfgs[0].0, &cfgs[0].1, &cfgs[0].2, ch);
+		let b = render_h(&bare, cfgs[j].0, &cfgs[j].1, &cfgs[j].2, ch);
+		if let Some(q) = first_diff(&a, &b) {
+			blame = format!("sounds / tracks / sends alone (all effects removed) already differ at sample {q}");
+		} else {
+			for slot in 0..count_fx(d) {
+				let (one, kept) = only_fx(d, Some(slot));
+				let a = render_h(&one, cfgs[0].0, &cfgs[0].1, &cfgs[0].2, ch);
+				let b = render_h(&one, cfgs[j].0, &cfgs[j].1, &cfgs[j].2, ch);
+				if let Some(q) = first_diff(&a, &b) {
+					blame = format!("effect {:?} alone (slot {slot}) already differs at sample {q} (frame {})", kept.unwrap(), q / ch as usize);
+					break;
+				}
+			}
+		}
+		let maxdiff = outs[0].iter().zip(outs[j].iter()).map(|(x, y)| (x - y).abs()).fold(0.0f32, f32::max);
+		let hist = match &d.hist {
+			None => String::new(),
+			Some(h) => format!(
+				"; history: manager and scene created at {} Hz, sounds played {}, callbacks {:?} resp. {:?}, then Renderer::on_change_sample_rate({SR}), then the callbacks given",
+				h.sr0,
+				if h.late_play { "after the sample-rate change" } else { "at once" },
+				short(&cfgs[0].1),
+				short(&cfgs[j].1)
+			),
+		};
+		s.fail(
+			format!("steady scene {:?} on {ch} channels, {total} frames, (b, callbacks) = ({}, {:?}) vs ({}, {:?}){hist}", d, cfgs[0].0, short(&cfgs[0].2), cfgs[j].0, short(&cfgs[j].2)),
+			format!("renderings differ first at sample {p} (frame {}): {:?} vs {:?}; max abs difference {maxdiff:e}; responsible: {blame}", p / ch as usize, outs[0][p], outs[j][p]),
+			None,
+		);
+		return false;
+	}
+	true
 }
 
 pub fn run(args: &Args) {
@@ -334,7 +601,7 @@ pub fn run(args: &Args) {
 		"From Coq Require Import ZArith List. Import ListNotations. Open Scope Z_scope.\nFrom KV Require Import Base.Corr C02.Run C11.Run.",
 		"C11.Run.run",
 		40,
-		"model case = one probe scene (random tree, sends, probe effects, pauses, mutes) rebuilt identically and rendered by a real AudioManager under 3-4 (internal buffer size, callback partition) configurations, every rendering predicted by the buffer-level model; monitor-only case = one steady scene of real static sounds / tracks / sends / built-in effects rendered under 4-8 configurations (b = 1, b = 4096, one-frame callbacks, non-multiples of b) and compared bit-for-bit; distinct = distinct scene text",
+		"model case = one probe scene (random tree, sends, probe effects, pauses, mutes) rebuilt identically and rendered by a real AudioManager under 3-4 (internal buffer size, callback partition) configurations, every rendering predicted by the buffer-level model; monitor-only case = one steady scene of real static sounds / tracks / sends / built-in effects rendered under 4-8 configurations (b = 1, b = 4096, one-frame callbacks, non-multiples of b) and compared bit-for-bit, and one steady scene with send levels mapped from an idle tweener / a fixed listener distance, recursive effects on the sends and a sample-rate change in the past (partition of the callbacks before the change varied too), same comparison; distinct = distinct scene text",
 	);
 
 	// ---- (1) probe scenes under several configurations: model cases + equality monitor
@@ -439,35 +706,47 @@ pub fn run(args: &Args) {
 				s.notes.push(format!("a steady scene renders NaN (identically under every configuration); effect alone reproducing it: {blame}"));
 			}
 		}
-		for j in 1..outs.len() {
-			let Some(p) = first_diff(&outs[0], &outs[j]) else { continue };
-			// bisect: which element keeps the difference alive?
-			let mut blame = String::from("not reproduced by any single element (interaction)");
-			let (bare, _) = only_fx(&d, None);
-			let a = render(&bare, cfgs[0].0, &cfgs[0].1, ch);
-			let b = render(&bare, cfgs[j].0, &cfgs[j].1, ch);
-			if let Some(q) = first_diff(&a, &b) {
-				blame = format!("sounds / tracks / sends alone (all effects removed) already differ at sample {q}");
-			} else {
-				for slot in 0..count_fx(&d) {
-					let (one, kept) = only_fx(&d, Some(slot));
-					let a = render(&one, cfgs[0].0, &cfgs[0].1, ch);
-					let b = render(&one, cfgs[j].0, &cfgs[j].1, ch);
-					if let Some(q) = first_diff(&a, &b) {
-						blame = format!("effect {:?} alone (slot {slot}) already differs at sample {q} (frame {})", kept.unwrap(), q / ch as usize);
-						break;
-					}
-				}
-			}
-			let maxdiff = outs[0].iter().zip(outs[j].iter()).map(|(x, y)| (x - y).abs()).fold(0.0f32, f32::max);
-			s.fail(
-				format!("steady scene {:?} on {ch} channels, {total} frames, (b, callbacks) = ({}, {:?}) vs ({}, {:?})", d, cfgs[0].0, short(&cfgs[0].1), cfgs[j].0, short(&cfgs[j].1)),
-				format!("renderings differ first at sample {p} (frame {}): {:?} vs {:?}; max abs difference {maxdiff:e}; responsible: {blame}", p / ch as usize, outs[0][p], outs[j][p]),
-				None,
-			);
-			break;
-		}
+		let cfgs3: Vec<Cfg> = cfgs.iter().map(|(b, cuts)| (*b, vec![], cuts.clone())).collect();
+		compare(&mut s, &d, &cfgs3, ch, total, &outs);
 	}
+
+	// ---- (3) constant parameters that are not `Fixed`, recursive effects on sends, a sample-rate change in the past
+	// (own stream, hashed once more: `Rng::new(s)` and `Rng::new(s + 1)` are the same SplitMix sequence one draw apart)
+	let mut rng = Rng(Rng::new(args.seed.wrapping_mul(0x2545_F491_4F6C_DD1D) ^ 0xC113).next());
+	let scenes3 = (if args.thorough { 3000 } else { 300 }) * args.budget_mul;
+	let directed = directed3(&mut rng);
+	for i in 0..scenes3 {
+		let d = if (i as usize) < directed.len() { directed[i as usize].clone() } else { gen_scene3(&mut rng) };
+		// a reverb says nothing during its first ~1200 frames (shortest comb line): render past that, or what its
+		// state went through before cannot be heard
+		let send_reverb = d.sends.iter().any(|(_, fx)| fx.iter().any(|f| matches!(f, Fx::Reverb { .. })));
+		let total = if send_reverb && ((i as usize) < directed.len() || rng.chance(1, 2)) { rng.range(2600, 4000) } else { rng.range(200, 1200) } as usize;
+		let pre = if d.hist.is_none() || rng.chance(1, 4) { 0 } else { rng.range(1, 300) as usize };
+		let ch = *rng.pick(&[2u16, 2, 1, 5]);
+		let k = rng.range(4, 5) as usize;
+		let cfgs: Vec<Cfg> = gen_configs(&mut rng, total, k)
+			.into_iter()
+			.enumerate()
+			.map(|(j, (b, cuts))| {
+				let p = match j {
+					0 | 1 => if pre > 0 { vec![pre] } else { vec![] },
+					2 => vec![1; pre],
+					_ => split(&mut rng, pre, 2 * b.min(200) + 3),
+				};
+				(b, p, cuts)
+			})
+			.collect();
+		let outs: Vec<Vec<f32>> = cfgs.iter().map(|(b, p, cuts)| render_h(&d, *b, p, cuts, ch)).collect();
+		s.eval_only("steady_history_scene");
+		if d.hist.is_some() {
+			s.count("steady_history_scene_rate_changed");
+		}
+		if outs[0].iter().any(|x| *x != 0.0) {
+			s.nontrivial.insert(format!("hist{i}"));
+		}
+		compare(&mut s, &d, &cfgs, ch, total + pre, &outs);
+	}
+	listener_lerp_probe(&mut s, &mut rng);
 	s.notes.push("real scenes are compared rendering-against-rendering (bit patterns); the probe scenes also against the model".into());
 	s.finish();
 }
